@@ -56,12 +56,18 @@ pub(crate) struct DisplayParsedString<'a>(pub(crate) &'a str);
 
 impl fmt::Display for DisplayParsedString<'_> {
     fn fmt(&self, f: &mut fmt::Formatter<'_>) -> fmt::Result {
-        for c in self.0.chars() {
+        for (index, c) in self.0.chars().enumerate() {
             match c {
                 // These escapes are custom to nextest.
                 '/' => f.write_str("\\/")?,
                 ')' => f.write_str("\\)")?,
                 ',' => f.write_str("\\,")?,
+                // Quotes are not special to the parser, and `escape_default` would produce
+                // `\'` and `\"` which parse_escaped_char does not accept.
+                '\'' | '"' => write!(f, "{c}")?,
+                // At the start of a string, a space would be skipped as leading whitespace, and
+                // `=`, `~` and `#` would be parsed as a matcher prefix.
+                ' ' | '=' | '~' | '#' if index == 0 => write!(f, "\\u{{{:x}}}", c as u32)?,
                 // All the other escapes should be covered by this.
                 c => write!(f, "{}", c.escape_default())?,
             }
